@@ -451,6 +451,7 @@ def takewhile_ne(E, st, seq, stop, ek, eq=False):
     n = z3.Length(r)
     if eq:
         i = z3.Int(fresh_name("i"))
+        E.uses_quantifiers = True
         ax = z3.And(z3.PrefixOf(r, seq), z3.ForAll([i], z3.Implies(z3.And(i >= 0, i < n), r[i] == stop.t)),
                     z3.Or(n == z3.Length(seq), seq[n] != stop.t))
     else:
@@ -472,6 +473,7 @@ def dictview_seq(E, st, view):
         r = z3.Const(fresh_name("keys"), S)
         x = z3.Const(fresh_name("k"), K)
         keys = E.dkeys(st, dv)
+        E.uses_quantifiers = True
         ax = z3.ForAll([x], z3.Contains(r, z3.Unit(x)) == z3.Select(keys, x))
         return st.assume(ax), V(Kind("seq", kk), r)
     if what == "values":
@@ -486,6 +488,7 @@ def dictview_seq(E, st, view):
         S = z3.SeqSort(sort_of(vkk))
         r = z3.Const(fresh_name("values"), S)
         i = z3.Int(fresh_name("i"))
+        E.uses_quantifiers = True
         vals = z3.Select(E.arr(st, E.dvals_key(dv, vkk), z3.IntSort(), z3.ArraySort(K, sort_of(vkk))), dv.t)
         ax = z3.And(z3.Length(r) == z3.Length(order),
                     z3.ForAll([i], z3.Implies(z3.And(i >= 0, i < z3.Length(order)), r[i] == z3.Select(vals, order[i]))))
@@ -519,6 +522,7 @@ def str_method(E, st, s, meth, args, kwargs):
         if c1 == 1:
             return ok(st, vbool(is_space_char(E, x)))
         i = z3.Int(fresh_name("i"))
+        E.uses_quantifiers = True
         return ok(st, vbool(z3.And(n > 0, z3.ForAll([i], z3.Implies(z3.And(i >= 0, i < n), is_space_char(E, z3.SubString(x, i, 1)))))))
     if meth == "isalpha":
         n = z3.Length(x)
@@ -639,6 +643,7 @@ def str_method(E, st, s, meth, args, kwargs):
 
 def _all_chars(E, x, pred):
     i = z3.Int(fresh_name("i"))
+    E.uses_quantifiers = True
     return z3.ForAll([i], z3.Implies(z3.And(i >= 0, i < z3.Length(x)), pred(E, z3.SubString(x, i, 1))))
 
 
